@@ -733,10 +733,13 @@ class C11(Prop):
                    "Python's stable list.sort is modelled by a stable insertion sort; str comparison by code point",
                    "RecursionError is modelled as running out of fuel (900 frames)"]
     partial = {
-        "C11_reachable_partial": "Inv (parent/children mirror, one position per object, top-level alignment) needs every add to pass an object that is not yet placed, and top-level adds an object whose parent pointer is None: a refused add still rewrites the parent pointer of its argument (F13) and Variants.add validates against a stale parent (F19); unconditional part: C11_reachable (InvW)",
-        "C11_inv_partial": "same hypotheses as C11_reachable_partial on the single step",
-        "C11_findable_partial": "needs: UIDs distinct (F14 is not enforced by add), top-level keys are id or UID, dashed top-level variants childless (quantifier), and no child of an ancestor carrying the remaining dashed path as its UID (F20: __getitem__ scans children UIDs against the *relative* path)",
-        "C11_get_variants_strict_partial": "strict order / no duplicates needs distinct UIDs among the objects returned (F14, F19 break it)",
+        "C11_inv_partial": "full Inv (parent/children mirror, one position per object, top-level UID alignment, top-level key = id or UID) is preserved only by calls whose argument is not yet in the forest and, for a top-level add, has parent pointer None and key id/UID (hypothesis Fresh): a refused add still rewrites the parent pointer of its argument (F13, C11_refused_parent_witness), Variants.add validates against a stale parent (F19, C11_stale_parent_witness) and accepts any key (F22). Unconditional part: C11_inv (InvW)",
+        "C11_reachable_partial": "same hypothesis on every call of the history (FreshRun); unconditional part: C11_reachable (InvW after ANY history)",
+        "C11_findable_partial": "lookup by UID from the top needs: top-level keys are id or UID (F22), UID of v not shared by another top-level variant (F14, C11_dup_uid_witness), dashed top-level variants childless (the property's quantifier), and NoShadow: no child of an ancestor a of v has the UID 'path of v relative to a' (F20, C11_shadow_witness: __getitem__ compares relative paths with full UIDs). By id from the parent / by key from the top are full (C11_findable_by_id, C11_findable_by_key)",
+        "C11_findable_inv_partial": "as C11_findable_partial with key/alignment facts taken from Inv",
+        "C11_get_variants_strict_partial": "generic form: strict order and no duplicates from pairwise distinct UIDs of the result; discharged without hypothesis for every variant container (C11_get_variants_strict_below)",
+        "C11_get_variants_strict_top_partial": "on the top-level container distinctness of UIDs across top-level subtrees (TopApart) is a hypothesis: add does not enforce it (F14) and a variant can be placed twice (F19, F22)",
+        "C11_get_variants_strict_dashless_partial": "TopApart derived from Inv when no top-level UID is dashed; with dashed top-level UIDs it stays a hypothesis (F14)",
     }
 
     def cases(self, rng, tier, budget):
